@@ -721,6 +721,34 @@ func Generate(r *rand.Rand, profile string, concurrent bool, av Avoid) *Plan {
 		ops = append(ops, frag...)
 		p.Ops = append(ops, p.Ops[at:]...)
 	}
+	// Directed fragment (serial, round-robin BIND x detection): BIND calls with a
+	// deadline wait for a channel that is reconnecting; meanwhile an older call of
+	// that channel gets its reply; the channel comes up, the waiting call is handed
+	// it - it starts then, after that reply - and runs into its deadline after
+	// the detection window: it counts.
+	if profile == "rr" && !concurrent && r.IntN(20) == 0 && len(p.Ops) > 4 {
+		p.Cfg.RR = true
+		p.Cfg.Min, p.Cfg.Max = 2, 2
+		p.Cfg.UMs, p.Cfg.UCalls = uint32(10*(1+r.IntN(4))), 1
+		if p.Cfg.WM != 0 && p.Cfg.WM < 8 {
+			p.Cfg.WM = 8
+		}
+		dl := int(p.Cfg.UMs) + 30
+		frag := []Op{{K: OpConn, A: 0, B: ConnProgress}, {K: OpConn, A: 0, B: ConnProgress}, {K: OpConn, A: 1, B: ConnProgress}, {K: OpConn, A: 1, B: ConnProgress},
+			{K: OpPick, B: MPlain}, {K: OpPick, B: MPlain}, // one call in flight on each channel
+			{K: OpConn, A: 0, B: ConnFail}, {K: OpConn, A: 0, B: ConnProgress}, // the first channel reconnects
+			{K: OpPick, B: MBind, Keys: []int{0}, D: 1, E: dl}, {K: OpPick, B: MBind, Keys: []int{0}, D: 1, E: dl}, // one of them waits for it
+			{K: OpAdvance, E: 3},
+			{K: OpDone, A: 0, B: OutOK}, {K: OpDone, A: 0, B: OutOK}, // the older calls get their replies
+			{K: OpAdvance, E: 2},
+			{K: OpConn, A: 0, B: ConnProgress}, // READY: the waiting call is placed now
+			{K: OpAdvance, E: dl},
+			{K: OpDone, A: -1, B: OutClientDE, Keys: []int{1}}, {K: OpDone, A: -1, B: OutClientDE, Keys: []int{2}}}
+		at := 1
+		ops := append([]Op{}, p.Ops[:at]...)
+		ops = append(ops, frag...)
+		p.Ops = append(ops, p.Ops[at:]...)
+	}
 	// Directed fragment (serial, round-robin BIND): a channel is being refreshed,
 	// the connection to be replaced reports SHUTDOWN (a live connection shut down
 	// under the pool), then the replacement comes up and takes the channel over:
